@@ -607,11 +607,7 @@ Section Unfold.
           | DNull => Some ((CVal JNull, [], []), [], false)
           | _ =>
             match lookup_type s n with
-            | Some (TObject _ _) =>
-                match d with
-                | DObj _ flds => dexec_sels s frags cv pl f n flds (srcs_of fs) parent base depth
-                | _ => Some (raise_here CauseType, [], false)
-                end
+            | Some (TObject _ _) => dexec_sels s frags cv pl f n (data_fields d) (srcs_of fs) parent base depth
             | Some (TInterface _) | Some (TUnion _) =>
                 match d with
                 | DObj rt flds =>
@@ -643,22 +639,6 @@ End Unfold.
 Definition pl_ok (p : payload) : Prop := (exists kvs, pl_data p = Some kvs) /\ pl_errs p = [].
 
 (* ------------------------------------------------------------------ any order of application *)
-
-(* what the merge sees of a payload: target path and data *)
-Definition cpl : Type := (path * option (list (str * json)))%type.
-Definition core (p : payload) : cpl := (pl_path p, pl_data p).
-
-Definition capply (j : json) (c : cpl) : option json :=
-  match snd c with
-  | None => Some j
-  | Some kvs => Merge.update_at (fst c) (merge_into kvs) j
-  end.
-
-Fixpoint capplys (j : json) (cs : list cpl) : option json :=
-  match cs with
-  | [] => Some j
-  | c :: r => match capply j c with Some j' => capplys j' r | None => None end
-  end.
 
 Lemma apply_pls_core j pls : apply_pls j pls = capplys j (map core pls).
 Proof.
@@ -1524,6 +1504,7 @@ Section Reassembly.
     - (* DLeaf *)
       destruct t as [n|it|t']; [|exfalso; eapply Hraise; exact H|apply HN; exact H].
       destruct (lookup_type s n) as [[sc|vals|ofs ifs|ifs|ms|idefs ioo]|];
+        try (apply HO; exact H);
         try (exfalso; eapply Hraise; exact H);
         (destruct (complete_leaf _ l); [apply Hval; exact H|exfalso; eapply Hraise; exact H]).
     - (* DObj *)
@@ -1536,7 +1517,7 @@ Section Reassembly.
     - (* DList *)
       destruct t as [n|it|t']; [|clear HN|apply HN; exact H].
       { destruct (lookup_type s n) as [[sc|vals|ofs ifs|ifs|ms|idefs ioo]|];
-          exfalso; eapply Hraise; exact H. }
+          first [apply HO; exact H|exfalso; eapply Hraise; exact H]. }
       set (cfp := fun x => option_map (xcatch it) (dcomplete s frags cv false f it fs x S1 b (S dp))) in *.
       set (cfd := fun x => option_map (xcatch it) (dcomplete s frags cv true f it fs x S2 b (S dp))).
       (* one item *)
@@ -2089,6 +2070,7 @@ Section PlainSpec.
     - destruct t as [n|it|t']; [apply Hnull; exact H|apply Hnull; exact H|apply HN; exact H].
     - destruct t as [n|it|t']; [|apply Hraise; exact H|apply HN; exact H].
       destruct (lookup_type s n) as [[sc|vals|ofs ifs|ifs|ms|idefs ioo]|];
+        try (apply HO; exact H);
         try (apply Hraise; exact H);
         (destruct (complete_leaf _ l); [inversion H; subst; auto|apply Hraise; exact H]).
     - destruct t as [n|it|t']; [|apply Hraise; exact H|apply HN; exact H].
@@ -2098,7 +2080,8 @@ Section PlainSpec.
       + destruct (is_object s rt && possible s n rt); [apply HO; exact H|apply Hraise; exact H].
       + destruct (is_object s rt && possible s n rt); [apply HO; exact H|apply Hraise; exact H].
     - destruct t as [n|it|t']; [|clear HN|apply HN; exact H].
-      { destruct (lookup_type s n) as [[sc|vals|ofs ifs|ifs|ms|idefs ioo]|]; apply Hraise; exact H. }
+      { destruct (lookup_type s n) as [[sc|vals|ofs ifs|ifs|ms|idefs ioo]|];
+          first [apply HO; exact H|apply Hraise; exact H]. }
       destruct (dcomplete_items
                   (fun x => option_map (xcatch it) (dcomplete s frags cv false f it fs x par b (S dp))) items 0)
         as [[[[[r es] cs] pls] rv1]|] eqn:Ei; [|discriminate].
@@ -2437,6 +2420,7 @@ Section Inactive.
     - destruct t as [n|it|t']; [apply Himm; reflexivity|apply Himm; reflexivity|apply HN].
     - destruct t as [n|it|t']; [|apply Himm; reflexivity|apply HN].
       destruct (lookup_type s n) as [[sc|vals|ofs ifs|ifs|ms|idefs ioo]|];
+        try (apply HO);
         try (apply Himm; reflexivity);
         (destruct (complete_leaf _ l); apply Himm; reflexivity).
     - destruct t as [n|it|t']; [|apply Himm; reflexivity|apply HN].
@@ -2446,7 +2430,8 @@ Section Inactive.
       + destruct (is_object s rt && possible s n rt); [apply HO|apply Himm; reflexivity].
       + destruct (is_object s rt && possible s n rt); [apply HO|apply Himm; reflexivity].
     - destruct t as [n|it|t']; [| |apply HN].
-      { destruct (lookup_type s n) as [[sc|vals|ofs ifs|ifs|ms|idefs ioo]|]; apply Himm; reflexivity. }
+      { destruct (lookup_type s n) as [[sc|vals|ofs ifs|ifs|ms|idefs ioo]|];
+          first [apply HO|apply Himm; reflexivity]. }
       rewrite (dcomplete_items_ext
                  (fun x => option_map (xcatch it) (dcomplete s frags cv true f it fs x [] b (S dp)))
                  (fun x => option_map (xcatch it) (dcomplete s frags cv false f it fs x [] b (S dp)))).
